@@ -7,7 +7,11 @@ by `decide` over Generated/BindingFacts.lean.
 Tie to the real code: (a) that probe; (b) real threads under the deterministic scheduler (harness/sched.py): every
 thread's results under every tried schedule must equal the serial run (the property itself), the run's lock/native
 events must follow the probed step lists, and for programs of direct binding calls the Lean model's prediction for
-the same schedule (`lock.run`) must agree with what the real threads returned (correspondence)."""
+the same schedule (`lock.run`) must agree with what the real threads returned (correspondence).
+Deepened (Props/C20X.lean, C20XFacts.lean): fairness, and the machine in which the library context has contents
+(Model/LockCtx.lean). Tie: the same schedules are also sent to `lockctx.run`; which probed functions WRITE the context
+(`lockctx.writers`, derived from the recorded native symbols) is compared with a behavioural probe here: the memory of
+the context object is snapshotted before and after each probed call (`context_writers_observed`)."""
 import ast
 import contextlib
 import json
@@ -29,7 +33,7 @@ from embit.liquid.pset import PSET
 import embit.liquid.transaction  # noqa  (immediate caller: unblind)
 
 PROP = "C20"
-MODS = ["EmbitModel.Props.C20", "EmbitModel.Props.C20Facts"]
+MODS = ["EmbitModel.Props.C20", "EmbitModel.Props.C20Facts", "EmbitModel.Props.C20X", "EmbitModel.Props.C20XFacts"]
 NPOOL = 3
 
 _POOL = {}
@@ -351,6 +355,8 @@ def check_schedule(c, progs, preempts, serial, kind, model=True):
                                        ",".join(map(str, ticks)) or "-")
             impl = "ok " + "|".join("1;%d" % int(res[t] == serial[t]) for t in range(len(progs)))
             c.expect(line, impl, dict(rec_base, ticks=len(ticks)), proven=False, op="lock.run", canon=canon_flags)
+            c.expect("lockctx" + line[4:], impl, dict(rec_base, ticks=len(ticks)), proven=False, op="lockctx.run",
+                     canon=canon_flags)
     return s, res, ok
 
 
@@ -391,6 +397,37 @@ def sample_schedules(c, progs, kind, n, npre=2):
 
 DIRECT_CORE = ["rangeproof_rewind", "schnorrsig_sign", "ec_pubkey_tweak_add", "pedersen_blind_generator_blind_sum",
                "surjectionproof_generate", "ecdsa_signature_serialize_der", "ecdh:hashfn", "xonly_pubkey_from_pubkey"]
+
+
+def context_writers_observed():
+    """behavioural probe, independent of the recorded symbol names: which probed binding functions change the MEMORY of
+    the library context object (`secp256k1_context_preallocated_size` bytes at `_secp.ctx`, compared before / after the
+    call). `_init` makes and randomises a new context object; the module import is that same call. None when the loaded
+    library does not export the size function."""
+    import ctypes
+    try:
+        f = B._secp.secp256k1_context_preallocated_size
+    except AttributeError:
+        return None
+    f.restype, f.argtypes = ctypes.c_size_t, [ctypes.c_uint]
+    n = f(B.CONTEXT_SIGN | B.CONTEXT_VERIFY) if hasattr(B, "CONTEXT_SIGN") else f(0x301)
+    if not (0 < n < (1 << 24)):
+        return None
+    writers = []
+    with deadline(60.0, "the context-write probe"):
+        lib = B._init()
+        if getattr(lib, "ctx", None) and any(ctypes.string_at(lib.ctx, n)):
+            writers += ["<import>", "_init"]
+        for nm in direct_names():
+            thunk = prepare(("bind", nm, 0))
+            before = ctypes.string_at(B._secp.ctx, n)
+            try:
+                thunk()
+            except Exception:
+                pass
+            if ctypes.string_at(B._secp.ctx, n) != before:
+                writers.append(nm)
+    return writers
 
 
 def direct_names():
@@ -557,6 +594,20 @@ def run(tier, seed):
     if c.driver_ok:
         names = ",".join(f["name"] for f in facts.LAST_BINDING.get("facts", []))
         c.expect("lock.fns", "ok " + names, {"what": "the driver was built from this run's probe"}, proven=False)
+        try:
+            obs = context_writers_observed()
+        except Timeout as e:
+            obs = None
+            c.broken.append(("facts", str(e)))
+        if obs is None:
+            c.extra["context_write_probe"] = "skipped: the loaded library does not export secp256k1_context_preallocated_size"
+        else:
+            order = [f["name"] for f in facts.LAST_BINDING.get("facts", [])]
+            obs = sorted(set(obs), key=lambda x: order.index(x) if x in order else len(order))
+            c.extra["context_write_probe"] = {"writers_observed": obs}
+            c.expect("lockctx.writers", "ok " + ",".join(obs),
+                     {"what": "probed functions whose call changes the memory of the library context vs. the functions "
+                              "the model compiles to context writers (by native symbol)"}, proven=False)
         c.flush()
     c.extra["traced_files"] = sorted(os.path.relpath(f, REPO) for f in trace_files())
     if not c.broken:
